@@ -211,6 +211,9 @@ func checkGraph(g Graph, recursionAllowed bool, st *fw.Stats) []finding {
 			break
 		}
 	}
+	// and rendered without any call expression: every function is entered from an operation on a
+	// value of the application
+	fs = append(fs, checkGraphLeaf(g, recursionAllowed, st)...)
 	return fs
 }
 
